@@ -56,3 +56,15 @@ package jsonapi
 //@ loop 4 invariant page-selected: allSelected(page, c, ids, filter)
 //@ loop 4 invariant col-selected: allSelected(col.col, c, ids, filter)
 //@ assert before Sort#0 selected-before-sort: allSelected(col.col, c, ids, filter)
+
+// The collection Range returns: Len and At read the slice (nil outside the range).
+//@ func Resources.Len
+//@ props C09
+//@ requires nonnil: r != nil
+//@ ensures len: result == len(*r)
+
+//@ func Resources.At
+//@ props C09
+//@ requires nonnil: r != nil
+//@ ensures in-range: 0 <= i && i < len(*r) ==> result == (*r)[i]
+//@ ensures out-of-range: !(0 <= i && i < len(*r)) ==> result == nil
